@@ -422,6 +422,24 @@ def Reader.new (bytes : List UInt8) : Outcome Reader :=
                       | .err e => .err e
                       | .panic s => .panic s
 
+/-! ## `datafile/src/file.rs`: the file-backed reader -/
+
+/-- `file::Reader::new_impl(file, check_initial_offset)` with the file positioned at byte `start`
+(`Reader::open` is `start = 0`).  The sequential reads of `raw::Reader::new` see the file from
+`start` on; `ensure_filesize` compares `metadata().len().checked_sub(datafile_start).unwrap()`
+(a panic site) with the expected size; `set_seek_base` records the number of bytes read so far,
+and `seek_read(offset)` later reads at the absolute file position
+`datafile_start + seek_base + offset` (after the repair of `new_impl`, which used to leave out
+`datafile_start`). -/
+def fileOpen (file : List UInt8) (start : Nat) : Outcome Reader :=
+  match Reader.new (file.drop start) with
+  | .ok r =>
+    if file.length < start then .panic "ensure_filesize: checked_sub(datafile_start).unwrap()"
+    else
+      let seekBase := (file.drop start).length - r.dataRegion.length
+      .ok { r with dataRegion := file.drop (start + seekBase) }
+  | o => o
+
 /-! ## Accessors -/
 
 structure ItemView where
@@ -550,16 +568,16 @@ structure Item where
   data : List Int
   deriving Repr, DecidableEq, Inhabited
 
-/-- type table of a list of items in which equal type ids are adjacent: `(type_id, start, num)` -/
-def groupTypes : List Item → Nat → List ItemType → List ItemType
-  | [], _, acc => acc.reverse
-  | it :: rest, idx, acc =>
-    match acc with
-    | g :: acc' =>
-      if g.typeId = (it.typeId : Int) then
-        groupTypes rest (idx + 1) ({ g with num := g.num + 1 } :: acc')
-      else groupTypes rest (idx + 1) ({ typeId := it.typeId, start := idx, num := 1 } :: acc)
-    | [] => groupTypes rest (idx + 1) [{ typeId := it.typeId, start := idx, num := 1 }]
+/-- type table of a list of items: one entry `(type_id, start, num)` per run of adjacent items
+with the same type id (`idx` = index of the first item of the list) -/
+def groupTypes : List Item → Nat → List ItemType
+  | [], _ => []
+  | it :: rest, idx =>
+    match groupTypes rest (idx + 1) with
+    | g :: gs =>
+      if g.typeId = (it.typeId : Int) then { g with start := idx, num := g.num + 1 } :: gs
+      else { typeId := it.typeId, start := idx, num := 1 } :: g :: gs
+    | [] => [{ typeId := it.typeId, start := idx, num := 1 }]
 
 /-- running offsets `0, l0, l0+l1, …` (without the total) -/
 def offsetsFrom : Nat → List Nat → List Nat
@@ -581,7 +599,7 @@ def concatBytes : List (List UInt8) → List UInt8
 /-- Writes a datafile of version `ver` (3 or 4).  `deflate` is zlib's `compress`. -/
 def writeDf (ver : Nat) (deflate : List UInt8 → List UInt8) (items : List Item)
     (datas : List (List UInt8)) : List UInt8 :=
-  let types := groupTypes items 0 []
+  let types := groupTypes items 0
   let itemSizes := items.map (fun it => 8 + 4 * it.data.length)
   let stored := if ver = 3 then datas else datas.map deflate
   let storedSizes := stored.map List.length
